@@ -7,35 +7,35 @@ HERE = os.path.dirname(os.path.dirname(os.path.abspath(__file__)))
 
 # id -> (technique, what the check decides, trusted / assumed)
 CLAIMED = {
-    'C05': ('closed-list store classification + effect analysis of the prange body + affine slice/offset arithmetic + call-site operand agreement (custom Cython front end)',
+    'C05': ('closed-list store classification over resolved values (per-path reaching definitions) + effect analysis of the prange body + affine / per-axis view normal forms + quasi-polynomial comparison of condensed offsets + call-site operand agreement (custom Cython front end) + C20 selection rules re-evaluated',
             'Decides that every output cell is the unmodified value of the one kernel, a copy of a cell or zero (no arithmetic, buffers float32, returned unchanged); that the prange body writes only out[<induction variable>] with function-local scalars and a pure nogil callee '
             '(race-free for every schedule and thread count); fast/slow path pairing; that one slice selects reference chunk and output columns; that chunk_slices tiles [0,n); pairwise column slice, mirror, condensed offsets.',
             'Cython prange privatisation; NumPy view write-through; kernel correctness is C02.'),
-    'C06': ('dataflow rule for per-record isolation + re-evaluated C01/C07 strand and case premises + sibling agreement over every CLI SequenceFile site + table/ordering rules for the compression sniffer',
+    'C06': ('path-enumerated value flow (sym_paths) for compression dispatch, sniffing and parse(); content-only rule for the sniffer; per-record isolation; re-evaluated C01/C07 strand and case premises; sibling agreement over every CLI SequenceFile site',
             "Decides the gambit-side clauses: one generator element per record with no concatenation anywhere on the way to the search and one shared accumulator (union, no k-mer across contigs); mirrored strand windows and rc-encoder = encoder o complement; case folding; "
             "every CLI site uses 'auto' compression, gzip magic, rewind, universal-newline text wrapper; parse() stream ownership.",
             "Biopython's FASTA parser (wrapping, CRLF inside records, final newline), GzipFile, TextIOWrapper."),
-    'C08': ('alignment-provenance dataflow (order-preserving constructs only) + effect analysis over the per-row call-graph closure + taint rule for `cores`',
+    'C08': ('alignment-provenance by element derivation (enumerate / zip in lock step / comprehensions) + per-path label chain + csv row-stream derivation + effect analysis over the per-row call-graph closure + taint rule for `cores` + option types keep the path as typed + C06/C13/C01 rules re-evaluated',
             'Decides that ids, files, signatures, inputs, matrix rows and result items stay index-aligned from the click parameters to results.items through order-preserving constructs only (strict zip, enumerate, one-to-one comprehensions), '
             'label derivation (.gz before FASTA suffix), length check, the signature-file channel, that the per-row computation writes nothing outside its own fresh locals, progress transparency, that cores reaches only thread/worker sinks, and exporter iteration order.',
             'C13 (file order for every schedule), C05 (cells independent of chunking/threads); equality of channels is C01/C06/C12.'),
-    'C11': ('schema resolution of the CSV column paths against the model tables + header/path/doc agreement + registry agreement (writer vs reader) + hook table rules',
+    'C11': ('schema resolution of the CSV column paths against the model tables + header/path/doc agreement + row-stream derivation for the csv writer + dict images of the JSON/archive converters + registry agreement (writer vs reader) + plain-record rule; getattr_nested by bounded evaluation (chains up to 3)',
             'Decides agreement clauses: every dotted CSV path resolves against the attrs/SQLAlchemy model and reports the attribute its header names; header set equals the documented set; rows only through csv.writer in COLUMNS order with absent values empty; '
             'JSON images; archive writer registrations == reader hooks and key fields written == read; float32 written by exact widening.',
             'cattrs structuring per field type; csv parse-back; json float repr round-trip.'),
-    'C12': ('table agreement (attributes/datasets written vs read, metadata fields) + affine bounds/fill arithmetic + guard dominance for the refusal path',
+    'C12': ('table agreement (attributes/datasets written vs read, metadata fields, unrolled loops over constant name tuples) + complete dtype-kind table for the id dispatch + index-map reduction of the fill loop + guard dominance for the refusal path + C20 sub-collection rules re-evaluated on the reader class (inherited indexing protocol)',
             'Decides that attribute names and datasets written equal those read and cover every SignaturesMeta field with None<->Empty symmetry, the list-path bounds (0, cumsum) and fill slice equal the reader slice, dtype preservation and id kinds, '
             'that the magic and marker guards raising SignaturesFileError dominate opening/construction, raising read forms, kmerspec round trip, create()/dump shape.',
             'h5py stores dtypes/strings/compression losslessly.'),
-    'C16': ('alignment provenance per side + call-site orientation agreement + writer rules',
+    'C16': ('alignment provenance per side by definition source + call-site orientation agreement + writer rules + option types keep the path as typed + C05 store rules, C14 parameter rules and C01-K7 (kernel precondition) re-evaluated',
             'Decides that each id list is assigned in the same branch as and derived from its source, square mode reuses the query ids, row labels go with the first matrix operand and column labels with the second, computed signatures descend from the same get_sequence_files call as their labels with the reconciled kspec, '
             'and the CSV writer (header, strict zip of ids and rows, fixed 0.4f format, csv.writer).',
             'format() rounding; C05/C13/C14/C15 for cells, order, parameters, symmetry.'),
-    'C17': ('affine index arithmetic + sibling agreement of the two children + call-chain operand agreement',
+    'C17': ('symbolic execution of one row of linkage_to_bio_tree (affine index / height differences, both children) + call-chain operand agreement by value flow + option types keep the path as typed + C05 pairwise rules and C01-K7 re-evaluated',
             "Decides average linkage on the condensed form of the given matrix with no other option; for both children branch length = parent height - child height with child height 0 for leaves else link[child - nleaves, 2]; one clade per row holding its two children; leaves per label in order with the count asserted; root = last clade; "
             'labels and signatures from one source; pairwise (non-flat) matrix unchanged through hclust to Newick.',
             'SciPy average linkage = UPGMA with monotone heights and node numbering n + row; Biopython Newick writer.'),
-    'C18': ('effect / taint analysis over the package: session class rules, open-mode rules, classified write sinks vs database-path taint, mutator confinement by call graph, ORM write sweep (positive controls embedded)',
+    'C18': ('effect / taint analysis over the package: session class rules (complete cls x readonly table and two-call histories of file_sessionmaker over its module state), open-mode rules, classified write sinks vs database-path taint, mutator confinement by call graph, ORM write sweep (positive controls embedded)',
             'Decides that the read-only session cannot flush or commit and is used at every session construction site, that the signature file is opened without a mode and no caller forwards one (h5py 3 pinned), that every write sink in the package is classified and none takes a database-derived path, '
             'that HDF5 mutators live only in the writer functions reachable only from `signatures create`, and that no session write call or store on a given object exists on the read side.',
             "SQLite read-only use of a read-write handle does not write; h5py mode 'r'."),
@@ -43,42 +43,42 @@ CLAIMED = {
             'Decides for every option combination (abstract path) of every signature-handling command that all signature operands of each comparison sink have known-equal parameters (found the repaired `query -s` defect), '
             'that explicit -k/--prefix in dist agree with every operand, that every differ-path ends in raise click.ClickException before any sink/output, and the -k/--prefix / --db-params option discipline.',
             'click maps ClickException to a non-zero exit; KmerSpec equality is (k, prefix).'),
-    'C20': ('may-alias forward dataflow over the statement CFG + guard normal forms for the index dispatch + affine slice arithmetic + class-table rules',
+    'C20': ('may-alias forward dataflow over the statement CFG + value-flow path conditions for the index dispatch + affine slice arithmetic with section rewriting + per-iteration model of the fill loop + identity-return rule + class-table rules',
             'Decides that no in-place write can reach memory that may alias a caller argument (np.asarray/views alias, copy()/arithmetic are fresh; found the repaired index-buffer defect; positive control embedded), '
             'exhaustive index dispatch with the right errors, _check_index arithmetic, element/length/contiguous-slice arithmetic, kmerspec/dtype propagation into sub-collections, list delegation of SignatureList mutators, equality.',
             'slice.indices, np.arange, np.flatnonzero, np.array_equal; NumPy view semantics of np.asarray.'),
-    'C03': ('guard (path-condition) normal forms + forward abstract interpretation over a statement CFG ({none, checked, unchecked}) for next_taxon',
-            'Decides the threshold guard (conjunct set, <= with equality, lineage order, first hit), the ancestors walk, argmin + same-index pairing and the non-strict result fields, '
+    'C03': ('path-enumerated value flow for classify()/get_result_item (structural) + plain-record rule on the result classes + bounded abstract evaluation of the parsed lineage walks (matching_taxon, ancestors, next_taxon, reportable_taxon) on every lineage up to depth 5 with a statement/branch coverage side-condition',
+            'NOTE: D1/D2/D4/D5 are decided by interpreting the parsed functions on a finite lineage domain (bounded, DESIGN.md 12); D3/D6/D7 are structural. Decides the threshold guard (conjunct set, <= with equality, lineage order, first hit), the ancestors walk, argmin + same-index pairing and the non-strict result fields, '
             'that EVERY taxon returned as "next" has passed a threshold-present test on every path (this rule found the repaired next_taxon defect), the reportable walk and the wiring in get_result_item.',
             'np.argmin returns the first minimum; composition of the clauses for every forest is a hand argument.'),
-    'C04': ('def-use + structured dominance (guards that must dominate success), dictionary orientation, sibling agreement of the two suffix groups',
+    'C04': ('element-derivation descriptions of the genome/index lists (one source, one filter) + value flow of the constructor stores + affine completeness facts + sibling agreement of the two suffix groups + C05-B5 re-evaluated',
             'Decides that genome/index lists are built in one block under one guard from one enumerate over the non-strict, order-preserving per-ID lookup; id map orientation; that the id_attr and completeness raises dominate every normal exit of the constructor; '
             'id attribute whitelist; exactly-one-file checks before a file is taken; that query() uses signatures, index list and genomes of one database object.',
             'SQLAlchemy row order (entity, added column); dict.get.'),
-    'C09': ('call-site rule with keyword resolution on the ordering expression + package-wide sweep of ordering calls',
+    'C09': ('value-flow rule on the ordering expression and the list derivation (comprehension / append loop) + closest-match integrity + plain-record rule + package-wide sweep of ordering calls + C05-B5 (chunk-size independence of the distance row) re-evaluated',
             'Decides that the closest-genomes order is produced by a stable ascending sort of the whole distance row (found the repaired unstable-argsort defect), truncated by a prefix slice afterwards, that the closest match is the first minimum, '
             'that every entry pairs genome and distance through the one index and derives its taxon from that distance; every other ordering call in the package is classified.',
             "np.argsort kind='stable' is stable, the default is not; np.argmin first minimum."),
-    'C10': ('program-dependence rule on the consensus fold (conflict latch) + guard normal forms for warnings / failure flags / primary-match filter',
-            'Decides necessary conditions: the fold cannot re-specialise after a conflict (latch initialised, set at every truncation, never cleared, tested before descending - found the repaired order-dependence defect), '
+    'C10': ('program-dependence rule on the consensus fold (conflict latch) + structural guard rule on find_matches + bounded abstract evaluation of the parsed consensus_taxon / find_matches / strict classify on every rooted forest up to 5 nodes (6 in the thorough tier) x every order of up to 4 taxa, monotone and non-monotone thresholds',
+            'NOTE: N1-N5 are decided by interpreting the parsed functions on a finite forest domain (bounded, DESIGN.md 12) next to the two structural rules. Decides necessary conditions: the fold cannot re-specialise after a conflict (latch initialised, set at every truncation, never cleared, tested before descending - found the repaired order-dependence defect), '
             'others / empty / no-common-ancestor exits, warning exactly under the conflicting set, failure exactly under no consensus, primary match = nearest candidate at or below the consensus.',
             'Correctness of trunk.index / suffix slicing as an LCA search for every forest is a hand argument (necessary conditions only).'),
-    'C13': ('def-use through the future->index map + structured dominance (schedule-independent by construction)',
+    'C13': ('def-use through the future->index map (for statement or comprehension) + per-path executor / with-context rule + list-identity of the returned collection + no package context manager swallows an exception (schedule-independent by construction)',
             'Decides for EVERY completion order that a result is stored at the submit-time index of its own future (map store at the submit site, store index defined as map[f] of the same f, pre-sized list, no positional collection), '
             'that every future is awaited via .result() outside any handler, sequential branch order, worker identity, executor lifetime, list-preserving result.',
             'concurrent.futures semantics (result() re-raises; as_completed yields each future once).'),
-    'C01': ('affine normal forms of the search-window / slice arithmetic + structured path conditions + sibling agreement + exhaustive evaluation of the dtype table',
+    'C01': ('symbolic trace of the search loops (find calls with affine start/end, restart at hit+1, exit on miss; two iterations unrolled to a fixpoint) + affine slice arithmetic per path + existential reading of the case-folding guard + sibling agreement of the accumulators + exhaustive evaluation of index_dtype for k = 1..32',
             'Decides the premises of the set-equality argument: both search loops (start, window end, restart at loc+1, exit on miss, yielded '
             'position and strand), slice bounds per strand and their composition with the yielded positions (adjacent to the prefix, length k, '
             'inside the sequence), strand dispatch, ValueError-only skip discipline, case folding, both accumulators (dtype, storage, '
             'sorted-unique result), index_dtype for every k in 1..32, per-sequence loop with one shared accumulator, input-type coverage.',
             'bytes.find semantics; np.flatnonzero / ndarray.sort; encoder correctness is C07. The implication premises => exact set is a hand argument.'),
-    'C02': ('abstract interpretation of the merge kernel over the ordering domain {<,=,>} + affine normal forms + fused-type/dtype table agreement (custom Cython front end)',
+    'C02': ('abstract interpretation of the merge kernel over the ordering domain {<,=,>} + affine normal forms + fused-type agreement + the Python dtype gate decided as a table over the complete domain of integer/float/bool dtypes (custom Cython front end)',
             'Decides that the kernel counts the union exactly for every pair of sorted arrays (the data are provably touched only through '
             'comparisons, so three orderings are exhaustive), the tail and zero-guard, that the result is one binary32 division of exactly '
             'converted integers (2u-N-M)/u, the independent unsigned fused types, wrappers, and that every kernel operand passes the dtype gate.',
             'C usual arithmetic conversions between unsigned widths; IEEE-754 correctly rounded division; sets < 2^24 elements.'),
-    'C15': ('role-swap invariance of the facts extracted by the C02 abstract interpretation + the C02 kernel rules re-evaluated',
+    'C15': ('role-swap invariance of the facts extracted by the C02 abstract interpretation + the C02 kernel and dtype-gate rules and the C05 bulk-entry rules re-evaluated',
             'Decides bit-for-bit symmetry structurally (loop condition, ordering table, loads, tail and numerator are invariant under swapping the '
             'argument roles; independent fused types give width independence) and the premise that the kernel computes |A xor B|/|A or B| rounded once. '
             'Range, identity, disjointness, triangle inequality and strict decrease are mathematical consequences, stated not machine-checked.',
